@@ -14,6 +14,7 @@ pub mod c12;
 pub mod c15;
 pub mod image;
 pub mod c01;
+pub mod c01bulk;
 pub mod hscript;
 pub mod hyb;
 pub mod io;
